@@ -99,7 +99,7 @@ theorem coordinates_rejected (gt : String) (finite : α → Bool) (dbl : Bool) (
     have hn' : (castG cast gd).length ≤ k.toNat - 1 := by omega
     simp [getCoordinates, coordIndex_spec, h1, h0, hr, hf, List.getElem?_eq_none hn, List.getElem?_eq_none hn']
 
-/-- what a freshly parsed object answers to single accesses with the group's own coordinate type -/
+/-- what a freshly parsed object answers to single accesses with the group's own coordinate type  (hand model `accessS` over regenerated `decodePlan`, `coordIndex`, `coordTypeGuard`; tie C: streams `history`, `coordinates`) -/
 theorem fresh_answers (gt : String) (finite : α → Bool) (dbl : Bool) (cast : α → α) (gd : GData α) (c : Nat)
     (v : Valid gt finite cast gd c) (kn : Option Int) (hk : kn = none ∨ kn = some (ctOf c)) :
     let p : Group α := { gtype := gt, enc := expectedEnc gt dbl cast gd c, cache := none, known := kn }
